@@ -1,3 +1,4 @@
+import RossModel.Lemmas.SourceTie
 import RossModel.Lemmas.Exchange
 /-!
 # C18 — Exchange returns the first (or all) matching replies in arrival order
@@ -54,5 +55,9 @@ theorem C18_exchange_prefix (s : Proto) (p : Packet) (k : Kind) (capture : Bool)
         s.exchange p k capture = s'.exchangeLoop k capture s'.rxQueue) ∧
     (∀ e, (s.sendPacket p).2 = .error e → s.exchange p k capture = ((s.sendPacket p).1, .error e)) :=
   Ross.exchange_prefix s p k capture
+
+/-! ### tie to the source text (constants regenerated from /repo by `bin/extract` on every run) -/
+/-- `BROADCAST_ADDRESS` in `src/protocol.rs` is the model's -/
+theorem C18_src_broadcast : SrcTie.broadcastOk = true := by decide
 
 end Ross.Props
